@@ -32,11 +32,11 @@ KINDS = ['pass', 'fail', 'error', 'skip_body', 'skip_setup', 'skip_dec',
          'xfail', 'uxs', 'teardown_err', 'body+teardown', 'fail+teardown',
          'sub:1,0,1', 'sub:2,0,0', 'setup_err', 'cleanup_err',
          'sub:0,0,2', 'sub_skip', 'redir_sub_fail', 'leave_replaced',
-         'swap_fail', 'swap_pass']
+         'swap_fail', 'swap_pass', 'nested_fail']
 WRITES = ['none', 'o', 'o-', 'e', 'ob', 'oe', 'ws', 'w2', 'wsub']
 SHOWN = {'fail', 'error', 'uxs', 'teardown_err', 'body+teardown',
          'fail+teardown', 'sub:1,0,1', 'sub:2,0,0', 'setup_err', 'cleanup_err',
-         'redir_sub_fail', 'swap_fail'}
+         'redir_sub_fail', 'swap_fail', 'nested_fail'}
 # tests that touch sys.stdout themselves: only meaningful with --buffer (without
 # it the runner never looks at the streams, so it cannot be blamed for them)
 # (under -D the test runs through debug(): an expected failure raises there)
@@ -75,6 +75,11 @@ def cases(tier, seed):
                 if not any(k in TOUCHES or k in REINSTALLS for k, w in seq):
                     yield [list(map(list, seq)), True, 'j2']
                     yield [list(map(list, seq)), True, 'resumed']
+            if ln <= 2 and any(k.startswith('sub') for k, w in seq) and not any(k in TOUCHES or k in REINSTALLS for k, w in seq):
+                # verbosity 4 and more reports more events (passing subtests ...)
+                yield [list(map(list, seq)), True, 'v4']
+                if ln == 1:
+                    yield [list(map(list, seq)), True, 'v5c']
             if all(k in QUIET for k, w in seq) and ln <= 2:
                 # --buffer together with -D: nothing fails, so pdb never starts
                 yield [list(map(list, seq)), True, 'D']
@@ -156,6 +161,10 @@ def run_case(case):
     stdin = None
     if fmt == 'j2':
         argv += ['-j2']
+    elif fmt == 'v4':
+        argv += ['-vvvv']
+    elif fmt == 'v5c':
+        argv += ['-vvvvv', '-c']
     elif fmt == 'D':
         argv += ['-D']
         import io
